@@ -522,6 +522,21 @@ def _uniq(f):
             tgt = strip(kids(n)[0])
         if tgt is not None and tgt.get("kind") == "DeclRefExpr":
             assigned.add(tgt.get("referencedDecl", {}).get("id"))
+    # tables written (element stores, compound or plain) anywhere in this function: loads of those are never inlined
+    stored_tables = set()
+    for n in walk(f.body):
+        k = n.get("kind")
+        tgt = None
+        if k in ("BinaryOperator", "CompoundAssignOperator") and (k == "CompoundAssignOperator" or n.get("opcode") == "="):
+            tgt = strip(kids(n)[0])
+        elif k == "UnaryOperator" and n.get("opcode") in ("++", "--"):
+            tgt = strip(kids(n)[0])
+        elif k == "CXXOperatorCallExpr" and name_of(kids(n)[0]) in ("operator=", "operator+=", "operator-="):
+            tgt = strip(kids(n)[1])
+        while tgt is not None and subscript(tgt) is not None:
+            tgt = strip(subscript(tgt)[0])
+            if name_of(tgt):
+                stored_tables.add(name_of(tgt))
     for n in walk(f.body):
         if n.get("kind") == "VarDecl" and kids(n) and n.get("id") not in assigned and \
                 n.get("type", {}).get("qualType") in ("int", "size_t", "const int", "unsigned int", "long"):
@@ -529,6 +544,8 @@ def _uniq(f):
             ok = e.get("kind") == "BinaryOperator" and all(
                 x.get("kind") in ("IntegerLiteral", "DeclRefExpr", "MemberExpr", "ImplicitCastExpr", "ParenExpr",
                                   "CXXThisExpr") or (x.get("kind") == "BinaryOperator" and x.get("opcode") in ("+", "-", "*"))
+                or (x.get("kind") == "CXXOperatorCallExpr" and name_of(kids(x)[0]) == "operator[]" and
+                    name_of(kids(x)[1]) is not None and name_of(kids(x)[1]) not in stored_tables)
                 for x in walk(e))
             if ok:
                 INLINE[n.get("id")] = e
